@@ -811,6 +811,7 @@ class ClickHouseQueryBuilder(QueryBuilder):
     def __copy__(self) -> "ClickHouseQueryBuilder":
         newone = super().__copy__()
         newone._limit_by = copy(self._limit_by)
+        newone._distinct_on = copy(self._distinct_on)
         return newone
 
     @builder
